@@ -158,7 +158,7 @@ func fidelityReal(sc *cliScenario, x *cliExec, root, bin string) (bool, string, 
 			info := x.steps[si]
 			si++
 			argv := make([]string, len(st.Run.Argv))
-			for i, a := range st.Run.Argv {
+			for i, a := range rawArgv(st.Run.Argv) {
 				argv[i] = mapPath(root, a)
 			}
 			cmd := exec.Command(bin, argv...)
